@@ -47,9 +47,9 @@ REAL_VS_STUB = {
 }
 FAULT_PROBES = {"eof_at_line_boundary": "eof_at_line_boundary", "eof_inside_line": "eof_inside_line_mid", "eof_inside_final_token": "eof_inside_final_token",
                 "eof_at_molecule_boundary": "eof_at_molecule_boundary", "drop_line": "drop_line", "dup_line": "dup_line", "corrupt_numeric": "corrupt_numeric",
-                "corrupt_count": "corrupt_count", "corrupt_tag": "corrupt_tag"}
+                "corrupt_count": "corrupt_count", "corrupt_tag": "corrupt_tag", "corrupt_byte_invalid_utf8": "corrupt_byte"}
 PROBES = ["eof_at_line_boundary", "eof_inside_final_token", "eof_inside_line_mid", "eof_at_molecule_boundary", "drop_line", "dup_line",
-          "corrupt_numeric", "corrupt_count", "corrupt_tag", "rejected_with_exception", "returned_strict_prefix", "returned_all_unchanged",
+          "corrupt_numeric", "corrupt_count", "corrupt_tag", "corrupt_byte", "path_entry_used", "rejected_with_exception", "returned_strict_prefix", "returned_all_unchanged",
           "stream_channel_used", "generator_entry_partial_then_exception"]
 
 MAX_FILE = 13000
@@ -96,6 +96,23 @@ def _build_generated():
     out["gen_mixed.mol2"] = ("mol2", "".join(m.dumps_mol2() for m in (water, ethane, hcl)))
     out["gen_edge.mol2"] = ("mol2", "".join(m.dumps_mol2() for m in (ne, water, empty, hcl)))
     out["gen_confs.mol2"] = ("mol2", "".join(m.dumps_mol2() for m in (water, w2, w3)))
+    # record types molli does not implement are legal anywhere in a block: before ATOM, between ATOM and BOND, at the end
+    def with_extra(m, where):
+        lines = m.dumps_mol2().splitlines()
+        ia = lines.index("@<TRIPOS>ATOM")
+        ib = lines.index("@<TRIPOS>BOND")
+        extra = ["@<TRIPOS>COMMENT", "written by an external conformer generator", "second comment line"]
+        sub = ["@<TRIPOS>SUBSTRUCTURE", "     1 UNL1        1 GROUP             0 ****  ****    0  "]
+        if where == "before_atom":
+            lines = lines[:ia] + extra + lines[ia:]
+        elif where == "between":
+            lines = lines[:ib] + sub + lines[ib:]
+        else:
+            lines = lines + sub + extra
+        return "\n".join(lines) + "\n"
+
+    out["gen_extra_blocks.mol2"] = ("mol2", with_extra(water, "before_atom") + with_extra(ethane, "between") + with_extra(hcl, "end"))
+    out["gen_confs_comment.mol2"] = ("mol2", "".join(with_extra(m, "before_atom") for m in (water, w2, w3)))
     out["gen_mixed.xyz"] = ("xyz", "".join(m.dumps_xyz() for m in (water, ethane, hcl)))
     out["gen_edge.xyz"] = ("xyz", "".join(m.dumps_xyz() for m in (ne, water, hcl)))
     out["gen_confs.xyz"] = ("xyz", "".join(m.dumps_xyz() for m in (water, w2, w3)))
@@ -120,8 +137,8 @@ def corpus():
 
 
 ENTRIES = {
-    "mol2": ["mol.loads_all", "mol.load_all@stream", "mol.yield@stream", "struct.loads_all", "ens.loads"],
-    "xyz": ["geom.loads_all", "mol.load_all@stream", "mol.yield@stream", "ens.loads"],
+    "mol2": ["mol.loads_all", "mol.load_all@stream", "mol.yield@stream", "struct.loads_all", "ens.loads", "mol.load_all@path"],
+    "xyz": ["geom.loads_all", "mol.load_all@stream", "mol.yield@stream", "ens.loads", "mol.load_all@path"],
 }
 
 
@@ -160,6 +177,8 @@ def _call(fmt, entry, text):
                         got.append(_sig(m))
                 elif entry == "ens.loads":
                     got = _ens_sigs(ml.ConformerEnsemble.loads_mol2(text))
+                elif entry == "mol.load_all@path":
+                    got = [_sig(m) for m in ml.Molecule.load_all_mol2(_as_file(text, ".mol2"))]
                 else:
                     raise HarnessError(f"unknown entry {entry}")
             else:
@@ -174,6 +193,8 @@ def _call(fmt, entry, text):
                         got.append(_sig(m))
                 elif entry == "ens.loads":
                     got = _ens_sigs(ml.ConformerEnsemble.loads_xyz(text))
+                elif entry == "mol.load_all@path":
+                    got = [_sig(m) for m in ml.Molecule.load_all_xyz(_as_file(text, ".xyz"))]
                 else:
                     raise HarnessError(f"unknown entry {entry}")
         except HarnessError:
@@ -185,6 +206,17 @@ def _call(fmt, entry, text):
         except Exception as e:  # noqa: BLE001 - rejecting damaged input with any exception is the allowed outcome
             return got, e, st
     return got, None, st
+
+
+def _as_file(text, ext):
+    """The damaged text as a real file (the loaders open paths themselves).  A byte that is not valid UTF-8 travels through
+    the str-level fault machinery as a lone surrogate and is written out as the raw byte."""
+    from ..core import env
+
+    p = os.path.join(env.SANDBOX, f"c10-{os.getpid()}{ext}")
+    with open(p, "wb") as f:
+        f.write(text.encode("utf-8", "surrogateescape"))
+    return p
 
 
 def _f(x):
@@ -368,6 +400,8 @@ def gen_plan(r, tier, index):
             if f is None:
                 f = {"kind": "drop_line", "line": li}
         faults = [f]
+        if f.get("entry"):
+            entry = f["entry"]
         if f["kind"] != "dup_line" and f.get("what") != "count" and r.random() < 0.3:
             # ... followed by an end of data at a LINE BOUNDARY AFTER the damaged line.  (A cut inside a token is the
             # truncation enumeration's business; dup_line + eof and count-1 + eof can cancel - a duplicated atom line, or a
@@ -409,6 +443,12 @@ def _gen_corrupt(r, fmt, lines, ann):
     what, li, t, kind = r.choice(cands)
     toks = lines[li].split()
     if what == "num":
+        if r.random() < 0.3 and len(toks[t]) >= 3:
+            # one byte of the number replaced by a byte that is not valid UTF-8 (a damaged transfer): only a loader that
+            # opens the FILE can meet it, so the case is bound to the path entry point
+            k_ = r.randrange(len(toks[t]))
+            return {"kind": "corrupt", "line": li, "tok": t, "with": toks[t][:k_] + r.choice(["\udce9", "\udcff", "\udc80"]) + toks[t][k_ + 1:],
+                    "what": "byte", "entry": "mol.load_all@path"}
         return {"kind": "corrupt", "line": li, "tok": t, "with": r.choice(_BAD_NUM), "what": "numeric"}
     if what == "count":
         old = int(toks[t])
@@ -431,6 +471,8 @@ def _judge(res, name, fmt, entry, text, dmg, fault_class, section, detail_fault)
     res.evals += 1
     if st is not None:
         res.stats["probe:stream_channel_used"] += 1
+    if entry.endswith("@path"):
+        res.stats["probe:path_entry_used"] += 1
     sigbase = f"C10|{{clause}}|{fmt}|{fault_class}@{section}"
     if isinstance(exc, (StreamOveruse, RecursionError)):
         res.violate("reader-does-not-terminate", sigbase.format(clause="nontermination"),
